@@ -49,7 +49,7 @@ func externalMods(callee *ssa.Function, c *ssa.CallCommon) []string {
 		}
 		return []string{ghBuf}
 	case n == "container/heap.Push", n == "container/heap.Pop", n == "container/heap.Fix", n == "container/heap.Init", n == "container/heap.Remove":
-		return []string{"M$Slice", "E$Int", "F$Bar$index", ghInHeap, ghHord, ghHbound, ghHdirty}
+		return []string{pqMemKey, pqElemKey, "F$Bar$index", ghInHeap, ghHord, ghHbound, ghHdirty}
 	case n == "sort.Sort", n == "sort.Stable":
 		return []string{modAll}
 	case n == "io.Copy", n == "io.CopyN", n == "io.CopyBuffer":
@@ -266,6 +266,7 @@ func (x *Exec) external(st *State, site ssa.Instruction, callee *ssa.Function, c
 		return true
 	case "strings.NewReader", "bytes.NewReader":
 		r := x.newRef(st, "reader")
+		st.add(Eq(App("typeof", SInt, r), IntLit(int64(x.P.tagByName("*strings.Reader")))))
 		x.rdSet(st, r, at(0))
 		x.setResult(st, res, Val{T: r})
 		return true
@@ -273,10 +274,11 @@ func (x *Exec) external(st *State, site ssa.Instruction, callee *ssa.Function, c
 		// the contents are the concatenation of the readers' contents (when the argument slice
 		// has a literal length, as in every call of the library)
 		r := x.newRef(st, "multireader")
+		st.add(Eq(App("typeof", SInt, r), IntLit(int64(x.P.tagByName("*io.multiReader")))))
 		sl := at(0)
 		var total *Term = strEmpty
 		if n, ok := sliceAcc(sl, 2).IntVal(); ok && n.IsInt64() && n.Int64() <= 8 {
-			ek := x.elemKey(types.NewInterfaceType(nil, nil))
+			ek := x.elemKey(c.Args[0].Type().Underlying().(*types.Slice).Elem())
 			arr := Select(st.heapArr(ek, heapSorts[ek]), sliceAcc(sl, 0))
 			for i := int64(0); i < n.Int64(); i++ {
 				total = x.concat(st, total, x.readerContent(st, Select(arr, Add(sliceAcc(sl, 1), IntLit(i)))))
@@ -431,6 +433,13 @@ func (x *Exec) externalIface(st *State, site ssa.Instruction, c *ssa.CallCommon,
 // Push: the queue gains exactly x. Pop: it loses exactly the returned element, which was a
 // member; when hord its priority is the largest, i.e. >= every remaining one. Fix(i) with the
 // single out-of-place element at i restores hord.
+// memory regions of the priority queue: the cell holding the slice (reached through
+// *priorityQueue) and the element arrays of []*Bar
+const (
+	pqMemKey  = "M$mpb_priorityQueue"
+	pqElemKey = "E$Pmpb_Bar"
+)
+
 const (
 	ghInHeap = "#inheap"
 	ghHord   = "#hord"
@@ -457,7 +466,7 @@ func (st *State) ghostBool(name string) *Term {
 
 // pqWF: every element of the queue is a non-nil member whose index field is its position.
 func (x *Exec) pqWF(st *State, sl *Term) *Term {
-	ek := regHeap("E$Int", ArrSort(SInt, ArrSort(SInt, SInt)))
+	ek := regHeap(pqElemKey, ArrSort(SInt, ArrSort(SInt, SInt)))
 	idxKey := regHeap("F$Bar$index", ArrSort(SInt, SInt))
 	bv := Var("bv!q", SInt)
 	inner := Select(st.heapArr(ek, heapSorts[ek]), sliceAcc(sl, 0))
@@ -476,10 +485,10 @@ func (x *Exec) heapModel(st *State, site ssa.Instruction, callee *ssa.Function, 
 	h := x.term(st, args[0], c.Args[0].Type())
 	theU.DeclFunc("unbox!Int", SInt, SInt)
 	pq := App("unbox!Int", SInt, h) // the *priorityQueue inside the heap.Interface value
-	mk := regHeap("M$Slice", ArrSort(SInt, Sort(sliceDT)))
+	mk := regHeap(pqMemKey, ArrSort(SInt, Sort(sliceDT)))
 	cur := Select(st.heapArr(mk, heapSorts[mk]), pq)
 	oldLen := sliceAcc(cur, 2)
-	ek := regHeap("E$Int", ArrSort(SInt, ArrSort(SInt, SInt)))
+	ek := regHeap(pqElemKey, ArrSort(SInt, ArrSort(SInt, SInt)))
 	idxKey := regHeap("F$Bar$index", ArrSort(SInt, SInt))
 	prioKey := regHeap("F$Bar$priority", ArrSort(SInt, SInt))
 	wfBefore := x.pqWF(st, cur)
